@@ -51,6 +51,7 @@ type Interp struct {
 	// method) for which no model exists, before the result becomes an opaque symbol.
 	Unmodelled func(in *Interp, site ssa.Instruction, name string, args []AVal)
 	AtomHook   func(in *Interp, atom string) (int, bool) // pre-decided atoms
+	NonNil     func(in *Interp, v AVal) bool             // values a client knows to be non-nil: v == nil is decided false
 	MaxSteps   int
 	MaxDepth   int
 	Monitored  map[string]bool // event kinds that are part of the abstract state (default: "write")
@@ -1223,6 +1224,40 @@ func (in *Interp) cmp(op token.Token, x, y AVal) AVal {
 			case k <= 0 && (op == token.EQL || op == token.GTR || op == token.GEQ):
 				return cstBool(false)
 			}
+		}
+	}
+	// a length is never negative: len(x)/cap(x) (and the list-length token) against a constant <= 0
+	{
+		isLen := func(v AVal) bool {
+			switch t := v.(type) {
+			case Sym:
+				return strings.HasPrefix(t.K, "len(") || strings.HasPrefix(t.K, "cap(")
+			case Tok:
+				return t.Dom == "llen"
+			}
+			return false
+		}
+		if k, ok := isCstInt(y); ok && isLen(x) {
+			switch {
+			case k <= 0 && op == token.LSS, k < 0 && (op == token.LEQ || op == token.EQL):
+				return cstBool(false)
+			case k <= 0 && op == token.GEQ, k < 0 && (op == token.GTR || op == token.NEQ):
+				return cstBool(true)
+			}
+		}
+		if k, ok := isCstInt(x); ok && isLen(y) {
+			switch {
+			case k <= 0 && op == token.GTR, k < 0 && (op == token.GEQ || op == token.EQL):
+				return cstBool(false)
+			case k <= 0 && op == token.LEQ, k < 0 && (op == token.LSS || op == token.NEQ):
+				return cstBool(true)
+			}
+		}
+	}
+	if in.NonNil != nil && (op == token.EQL || op == token.NEQ) {
+		isNil := func(v AVal) bool { c, ok := v.(Cst); return ok && c.V == nil }
+		if (isNil(y) && !isNil(x) && in.NonNil(in, x)) || (isNil(x) && !isNil(y) && in.NonNil(in, y)) {
+			return cstBool(op == token.NEQ)
 		}
 	}
 	kx, ky := keyOf(x), keyOf(y)
